@@ -276,4 +276,77 @@ Proof.
     eapply oinv_perm; [apply Permutation_sym; exact Hperm|]. exact A.
 Qed.
 
+(** ** from_iter *)
+Lemma run_gs_length gs : Forall (fun g => sm_wf (tasks g)) gs -> length (run_gs gs) = total gs.
+Proof.
+  induction 1 as [|g gs Hg _ IH]; simpl; auto. unfold run_gs in *. simpl. rewrite app_length, IH. f_equal.
+  unfold run_of, fub_len. rewrite map_length, occ_list_length.
+  destruct Hg as [(l & Hc & Hnd & Hv & Hf)]. pose proof (vacant_count Hnd Hv). lia.
+Qed.
+
+(** under the structural invariant a push always adds the new index (the other alternative of
+    [fu_push_run] is the unreachable Stuck arm) *)
+Lemma fu_push_run_ok u c w :
+  winv (cnt (blks (groups u))) None w -> fu_ok false u ->
+  Permutation (run_fu (fst (fu_push P false u c w))) (cidx c :: run_fu u).
+Proof.
+  intros Hw Hok. destruct (fu_push_run false u c w) as [H|H]; auto. exfalso.
+  pose proof (@fu_push_spec P HP false u c w Hw Hok) as Hs.
+  destruct (fu_push P false u c w) as [u' w']. destruct Hs as (A & B & C & D). simpl in H.
+  pose proof (run_gs_length (fo_wf B)) as L1. pose proof (run_gs_length (fo_wf Hok)) as L2.
+  unfold run_fu in H. rewrite H in L1. lia.
+Qed.
+
+Lemma fu_push_fold_run l u w :
+  winv (cnt (blks (groups u))) None w -> fu_ok false u ->
+  Permutation (run_fu (fst (fold_left (fun uw c => fu_push P false (fst uw) c (snd uw)) l (u, w)))) (map cidx l ++ run_fu u).
+Proof.
+  revert u w. induction l as [|c l IH]; intros u w Hw Hok; simpl; auto.
+  pose proof (@fu_push_spec P HP false u c w Hw Hok) as Hs. pose proof (fu_push_run_ok c Hw Hok) as Hr.
+  destruct (fu_push P false u c w) as [u1 w1]. destruct Hs as (A & B & _). simpl in *.
+  eapply Permutation_trans; [apply IH; auto|].
+  eapply Permutation_trans; [apply Permutation_app_head; exact Hr|]. apply Permutation_sym. apply Permutation_middle.
+Qed.
+
+Theorem fo_from_list_order l w :
+  winv (cnt []) None w -> Z.of_nat (length l) < msb P -> fo_oinv (fst (fo_from_list P l w)).
+Proof.
+  intros Hw Hlen. pose proof (@wmod_2msb P (HW2 HP)) as Hwm. pose proof (@msb_pos P (HW2 HP)) as Hm.
+  unfold fo_from_list, fu_from_list.
+  pose proof (@fu_with_capacity_spec false (Nat.max (length (index_children P l 0)) (pMinCap P)) w Hw) as H0.
+  assert (Hrun0 : run_fu (fst (fu_with_capacity (Nat.max (length (index_children P l 0)) (pMinCap P)) w)) = []).
+  { unfold fu_with_capacity. destruct (Nat.eqb _ 0); [reflexivity|].
+    destruct (fub_new_eq' (Nat.max (length (index_children P l 0)) (pMinCap P)) w) as (w0 & ->).
+    unfold run_fu, run_gs. simpl. rewrite run_of_new. reflexivity. }
+  destruct (fu_with_capacity (Nat.max (length (index_children P l 0)) (pMinCap P)) w) as [u0 w0].
+  destruct H0 as (A & B & _). simpl in Hrun0.
+  pose proof (fu_push_fold_run (index_children P l 0) A B) as Hp.
+  destruct (fold_left _ (index_children P l 0) (u0, w0)) as [u w1]. cbn [fst snd] in *.
+  rewrite Hrun0, app_nil_r in Hp. rewrite index_children_cidx in Hp by lia.
+  unfold fo_oinv. simpl. eapply oinv_perm; [apply Permutation_sym; exact Hp|].
+  assert (Hheld : held (map (fun k => 0 + Z.of_nat k) (seq 0 (length l)))
+                       {| oheap := []; hcap := 0; nin := Z.of_nat (length l) mod wmod P; nout := 0 |}
+                  = zseq (length l)).
+  { unfold held, hidx. simpl. rewrite app_nil_r. unfold zseq. apply map_ext. intros; lia. }
+  constructor; rewrite ?Hheld; simpl; rewrite ?zseq_length.
+  - lia.
+  - reflexivity.
+  - apply Forall_forall. intros x Hx. apply zseq_In in Hx. lia.
+  - exact Hlen.
+  - unfold off. simpl. rewrite (map_ext_in _ (fun x => x)); [rewrite map_id; apply Permutation_refl|].
+    intros x Hx. apply zseq_In in Hx. rewrite Z.sub_0_r. apply Z.mod_small. lia.
+Qed.
+
+(** and a push of FuturesOrdered keeps the order invariant, with no side condition on the inner push *)
+Theorem fo_push_order_ok (front : bool) (q : fo) (c : child) (w : world) :
+  winv (cnt (blks (groups (fu_inner q)))) None w -> fu_ok false (fu_inner q) ->
+  fo_oinv q -> Z.of_nat (length (held (run_fu (fu_inner q)) (fu_ord q))) + 1 < msb P ->
+  fo_oinv (fst (fo_push P front q c w)).
+Proof.
+  intros Hw Hok Hinv Hroom. apply fo_push_order; auto.
+  pose proof (@fu_push_run_ok (fu_inner q)
+                (child_set_idx c (if front then wdec P (nout (fu_ord q)) else nin (fu_ord q))) w Hw Hok) as H.
+  exact H.
+Qed.
+
 End WithParams.
